@@ -167,7 +167,24 @@ func errGuard(r *engine.Run, ruleGuard, ruleDrop string, funcs []*ssa.Function, 
 			if isOp {
 				drops++
 				key := fn(engine.TopFunc(f)) + "|" + opName
-				if reason, allowed := errDropAllowed[key]; allowed && !looked {
+				reason, allowed := errDropAllowed[key]
+				if !allowed && !looked {
+					// the deliberate drop moved into a helper: every caller of this function is
+					// listed with the same callee
+					callee := key[strings.LastIndex(key, "|")+1:]
+					callers := r.P.RepoCG().In[f]
+					via := len(callers) > 0 && f.Object() != nil && !f.Object().Exported()
+					for _, e := range callers {
+						if _, ok := errDropAllowed[fn(e.Caller)+"|"+callee]; !ok {
+							via = false
+						}
+					}
+					if via {
+						reason, allowed = errDropAllowed[fn(callers[0].Caller)+"|"+callee]
+						reason += " (in a helper called only from the listed functions)"
+					}
+				}
+				if allowed && !looked {
 					r.OK(ruleDrop, od.next(fn(f)+"|"+opName+" (allowed drop)"), r.P.Pos(c.Pos()), "deliberately not looked at: "+reason)
 				} else {
 					r.Check(looked, ruleDrop, od.next(fn(f)+"|"+opName), r.P.Pos(c.Pos()), "the error result is compared, returned or stored",
